@@ -7,7 +7,8 @@ from ..core.runner import Partial
 
 LEVEL = "exploration"
 RULE = ("batch sizes 1..4 x image shapes x label forms (one-hot, binary scalar) x modes x every constructor combination "
-        "(apply/lamb/shuffle modes x mixup-only/cutmix-only/both with two probability splits) x return_ctx; the collator's "
+        "(apply/lamb/shuffle modes x mixup-only/cutmix-only/both with two probability splits) x return_ctx, also as the second "
+        "batch on a collator object that already mixed a batch of another size; the collator's "
         "generator is replaced by ChoiceRng: every answer of every draw (unit draws around the thresholds, beta values, "
         "full-range box centres, all permutations) is enumerated - full product where small, otherwise all executions with "
         "<= d non-default answers; partner and weight are decoded from id-coded pixels and one-hot labels; "
@@ -39,6 +40,8 @@ def configs(tier):
                                     continue  # item order / extra items do not interact with the image shape
                                 out.append(dict(B=B, hw=hw, kind=kind, kw=kw, apply_mode=am, lamb_mode=lm,
                                                 shuffle_mode=sm, mode=mode, return_ctx=rc, label=label))
+                                if B in (2, 3) and hw == shapes[0] and label == "onehot" and mode == "x class":
+                                    out.append(dict(out[-1], prior=4 if B == 2 else 2))
     return out
 
 
@@ -137,6 +140,14 @@ def run_one(cfg, chooser):
                             dataset_mode=cfg["mode"], return_ctx=cfg["return_ctx"], **cfg["kw"])
     except (AssertionError, NotImplementedError):
         return "rejected", None
+    if cfg.get("prior"):
+        # the collator object already served a batch of another size (real seeded generator): nothing may be carried over
+        import numpy as np
+        col.set_rng(np.random.default_rng(3))
+        try:
+            col(make_batch(dict(cfg, B=cfg["prior"])))
+        except Exception:
+            pass
     col.set_rng(ChoiceRng(chooser, unit=UNIT, beta=BETA, int_full=8))
     batch = make_batch(cfg)
     try:
@@ -204,7 +215,7 @@ def cfg_key(cfg):
 
 def signature(kind, cfg):
     return (f"C10:{kind}|mix={cfg['kind'][:4] if cfg['kind'].startswith('both') else cfg['kind']}|lamb_mode={cfg['lamb_mode']}"
-            f"|shuffle={cfg['shuffle_mode']}|label={cfg['label']}")
+            f"|shuffle={cfg['shuffle_mode']}|label={cfg['label']}{'|after_earlier_batch' if cfg.get('prior') else ''}")
 
 
 def dev_bound(cfg, max_dev, tier):
